@@ -460,7 +460,7 @@ def _unpack_filter_extensible_header(
 
     header_split.pop(0)
 
-    if header_split and header_split[0] == "dn":
+    if header_split and header_split[0].lower() == "dn" and (attribute is not None or len(header_split) > 1):
         for_dn = True
         header_split.pop(0)
 
